@@ -226,7 +226,8 @@ func (r *Reader) eachByte(b byte) {
 				}
 			*/
 			r.state = readerStateClean
-			if r.HandleSysex {
+			// sysex messages that do not fit into the buffer are dropped
+			if r.HandleSysex && r.sysexlen < len(r.sysexBf) {
 				r.sysexBf[r.sysexlen] = b
 				r.sysexlen++
 				//go
@@ -253,8 +254,13 @@ func (r *Reader) eachByte(b byte) {
 		}
 
 		if r.HandleSysex {
-			r.sysexBf[r.sysexlen] = b
-			r.sysexlen++
+			if r.sysexlen < len(r.sysexBf) {
+				r.sysexBf[r.sysexlen] = b
+				r.sysexlen++
+			} else {
+				// buffer exceeded: mark the message as to be dropped
+				r.sysexlen = len(r.sysexBf) + 1
+			}
 		}
 
 		/*
